@@ -98,22 +98,23 @@ type bWorld struct {
 	prop  string
 	start time.Time
 
-	versions []*simenv.Version
-	proto    *simenv.ProtoClient
-	cas      *simenv.CAS
-	ledger   *simenv.Ledger
-	store    *simenv.OpStore
-	unpub    *simenv.Unpub
-	useUnpub bool
-	q        *simenv.QueueProxy
-	writer   *batch.Writer
-	handler  *dochandler.DocumentHandler
-	update   *restdoc.UpdateHandler
-	router   *mux.Router
-	obs      *observer.Observer
-	sub      *simenv.Subscription
-	proc     *processor.OperationProcessor
-	tv       *simenv.SimTimeValidator
+	versions   []*simenv.Version
+	proto      *simenv.ProtoClient
+	cas        *simenv.CAS
+	ledger     *simenv.Ledger
+	store      *simenv.OpStore
+	unpub      *simenv.Unpub
+	useUnpub   bool
+	unpubTypes []operation.Type
+	q          *simenv.QueueProxy
+	writer     *batch.Writer
+	handler    *dochandler.DocumentHandler
+	update     *restdoc.UpdateHandler
+	router     *mux.Router
+	obs        *observer.Observer
+	sub        *simenv.Subscription
+	proc       *processor.OperationProcessor
+	tv         *simenv.SimTimeValidator
 
 	monCh, toCh chan time.Time
 	pendingTick string
@@ -285,6 +286,18 @@ func runWorldB(rc *RunCtx, prop string) *RunResult {
 		if w.fault("store.perr") {
 			if w.curObs != nil {
 				w.curObs.Faulted = true
+
+				// a transaction that cannot be stored contributes nothing: in particular the unpublished copies of
+				// its operations must still be there when the store write fails (first delivery only)
+				if w.useUnpub && w.curObs.Honest && w.curObs.Puts == 0 {
+					for _, op := range w.curObs.Included {
+						if w.unpubConfigured(op.Type) && !w.inUnpub(op) {
+							w.fail("C15", "store-failure/unpublished-removed", fmt.Sprintf("the store write of txn%d failed, yet the unpublished copy of op%d (%s) is already gone", w.curObs.Idx, op.ID, op.Type))
+						}
+					}
+
+					k.Count("probe:store-failure-with-unpublished-copies")
+				}
 			}
 
 			return errors.New("injected store failure")
@@ -327,6 +340,8 @@ func runWorldB(rc *RunCtx, prop string) *RunResult {
 
 		allTypes = sub
 	}
+
+	w.unpubTypes = allTypes
 
 	var genesis []uint64
 
@@ -993,6 +1008,16 @@ func (w *bWorld) inQueue(key string) bool {
 
 	for _, it := range w.q.InFlight {
 		if it.Key == key {
+			return true
+		}
+	}
+
+	return false
+}
+
+func (w *bWorld) unpubConfigured(t operation.Type) bool {
+	for _, x := range w.unpubTypes {
+		if x == t {
 			return true
 		}
 	}
